@@ -1,2 +1,3 @@
 import Hub.Props.C10
 import Hub.Props.C17
+import Hub.Props.C11
